@@ -92,7 +92,9 @@ def _alive(pid):
 
 def run_cell(env0, cell, tag=None, hang_s=8, timeout=25):
     """cell = dict(step, k, fault).  Returns the observation dict."""
-    name = tag or '%s_%s_%s' % (cell['step'], cell.get('k', 1), cell['fault'])
+    name = tag or '%s_%s_%s' % (cell['step'], cell.get('k', 1), cell['fault']) + ('_' + cell['content'] if cell.get('content') else '')
+    if cell.get('content') is not None:
+        cell = dict(cell, content_hex=CONTENTS[cell['content']].hex())
     d = os.path.join(root(), 'run', name)
     shutil.rmtree(d, ignore_errors=True)
     os.makedirs(d)
@@ -113,7 +115,8 @@ def run_cell(env0, cell, tag=None, hang_s=8, timeout=25):
             p.kill(); p.wait(); rc = -9; timed_out = True
     finally:
         fo.close(); fe.close()
-    out = open(os.path.join(d, 'stdout'), 'rb').read().decode('utf-8', 'replace')
+    out_b = open(os.path.join(d, 'stdout'), 'rb').read(); err_b = open(os.path.join(d, 'stderr'), 'rb').read()
+    out = out_b.decode('utf-8', 'replace')
     err = open(os.path.join(d, 'stderr'), 'rb').read().decode('utf-8', 'replace') + ('\n[timeout]' if timed_out else '')
     wall = time.time() - t0
     pids = []
@@ -138,7 +141,7 @@ def run_cell(env0, cell, tag=None, hang_s=8, timeout=25):
     lp = os.path.join(d, 'log')
     if os.path.exists(lp):
         log = open(lp).read()
-    return dict(cell=cell, rc=rc, stdout=out, stderr=err, wall=round(wall, 2), pids=pids, orphans=len(survivors),
+    return dict(cell=cell, rc=rc, stdout=out, stderr=err, stdout_b=out_b, stderr_b=err_b, wall=round(wall, 2), pids=pids, orphans=len(survivors),
                 incarnations=int(open(os.path.join(d, 'count')).read()) if os.path.exists(os.path.join(d, 'count')) else 0, log=log)
 
 
@@ -172,6 +175,43 @@ def intact(obs, upto):
     want = ['p0'] + [str(i) for i in range(1, upto)]
     got = obs['stdout'].split('\n')
     return got[:len(want)] == want
+
+
+# CONTENT classes for every message whose text or bytes the peer chooses: the VM must treat them as data
+CONTENTS = {
+    'fmt_s': b'toupper: conversion %s%s%s%s%s%s%s%s%s%s%s%s%s%s%s%s failed',
+    'fmt_n': b'%n%n%n%n written',
+    'fmt_x': b'%x.%x.%x.%p.%lu.%c',
+    'fmt_wide': b'pad %9999999d end',
+    'fmt_pct': b'100%% done, 5% left %',
+    'nul_inside': b'abc\x00def\x00ghi',
+    'non_utf8': b'\xff\xfe\x80\xc0\xc1 bad utf8 \xf8\x88',
+    'ansi': b'\x1b[31mred\x1b[0m\x1b]0;title\x07\x1b[2J',
+    'empty': b'',
+    'newline': b'\n',
+    'newlines': b'line1\nRuntime error: fake\n  second\r\n',
+    'kw_resp_died': b'COP: co-process died during FFI response (will relaunch on next call)',
+    'kw_prefix': b'FFI call failed: FFI call failed: ',
+    'kw_ready': b'READY',
+    'len_255': bytes(65 + i % 26 for i in range(255)),
+    'len_256_pct': bytes(65 + i % 26 for i in range(250)) + b'%s%s%s',
+}
+CONTENT_FAULTS = ['errtext', 'strres', 'ready_payload']
+
+
+def content_cells(K):
+    out = []
+    for cn in CONTENTS:
+        out.append(dict(step='before_ready', k=1, fault='ready_payload', content=cn))
+        for k in range(1, K + 1):
+            out.append(dict(step='reply', k=k, fault='errtext', content=cn))
+            out.append(dict(step='req', k=k, fault='errtext', content=cn))
+            out.append(dict(step='reply', k=k, fault='strres', content=cn))
+    return out
+
+
+def cell_name(c):
+    return '%s/%d/%s' % (c['step'], c['k'], c['fault']) + (':' + c['content'] if c.get('content') else '')
 
 
 def cells(K):
